@@ -30,7 +30,6 @@ vars == <<t, ph, k>>
 Cur == Traces[t]
 Init == t = 1 /\ ph = "font" /\ k = 0
 
-Usable(s) == Unicode(s.p, s.e) /\ Supported(s.fmt)
 BadFmt(s) == Unicode(s.p, s.e) /\ ~Supported(s.fmt)
 \* glyph a subtable gives to c, -1 when the subtable does not cover c
 SubGlyph(s, c) == IF s.fmt = 4 THEN MachGlyph4([segs |-> s.segs, gia |-> s.gia], c, Dev)
